@@ -346,6 +346,7 @@ type SchedOpts struct {
 	ForceKG   int    // 0: random, 1: --keep_going, 2: without
 	Second    string
 	MaxTarget int
+	Variant   int // which sub-shape of a kind with several (subrepoorder, subrepook): the index of the case within its kind
 }
 
 func sleepOf(r *lib.Rng) string {
@@ -467,9 +468,9 @@ func GenSched(r *lib.Rng, o SchedOpts) *SchedCase {
 	case "syntax", "runtime":
 		c.Broken[c.Targets[victim].Pkg] = o.Kind
 	case "subrepoorder": // BUILD-file errors around subrepos: used before defined in the same file / never defined
-		c.Broken[c.Targets[victim].Pkg] = []string{"subrepo-order", "subrepo-order", "subrepo-undefined", "subrepo-elsewhere-undefined"}[r.Intn(4)]
+		c.Broken[c.Targets[victim].Pkg] = []string{"subrepo-order", "subrepo-undefined", "subrepo-elsewhere-undefined", "subrepo-order"}[o.Variant%4]
 	case "subrepook": // controls: the same statements in the right order, or the subrepo defined by another package
-		c.SubrepoOK = map[string]string{c.Targets[victim].Pkg: []string{"same", "other"}[r.Intn(2)]}
+		c.SubrepoOK = map[string]string{c.Targets[victim].Pkg: []string{"other", "same"}[o.Variant%2]}
 	case "undefined":
 		c.Targets[victim].Deps = append(c.Targets[victim].Deps, "//"+c.Targets[r.Intn(n)].Pkg+":nosuch")
 	case "missingpkg":
@@ -1162,7 +1163,7 @@ func RunSchedProperty(c *lib.Ctx, prop string) {
 						kg = 2
 					}
 				}
-				cases = append(cases, GenSched(c.Rng.Fork(), SchedOpts{Kind: p.kind, Second: p.second, ForceKG: kg}))
+				cases = append(cases, GenSched(c.Rng.Fork(), SchedOpts{Kind: p.kind, Second: p.second, ForceKG: kg, Variant: i}))
 			}
 		}
 	}
